@@ -30,7 +30,9 @@ RULE = ('Exhaustive enumeration: every (route, method) of the API x caller '
         'version header) with the body that version documents; plus for '
         'every documented policy rule two '
         're-loaded configurations (rule: "!" and rule: "@") in which every '
-        'operation is tried by the admin resp. a role-less caller; plus the '
+        'operation is tried by the admin resp. a role-less caller; plus four '
+        'overrides of the base rule admin_api, which is the documented rule '
+        'of no operation and must therefore change nothing; plus the '
         'no-credentials row under auth_strategy=keystone. Oracle: / is open; '
         'no credentials => 401; callers outside {admin, service} (reshaper: '
         '{service}; GET /usages: also reader of the queried project) never '
@@ -437,6 +439,37 @@ def run_worker(ctx):
                 except Violation as v:
                     record(v, {'kind': 'override', 'rule': rule,
                                'check': chk, 'method': m, 'route': route})
+        # ---- overriding a rule that is NOT the documented rule of any
+        # operation (the deprecated base rule admin_api, which no documented
+        # default refers to) grants and denies nothing
+        base_cfgs = [('admin_api', 'role:member'), ('admin_api', '@'),
+                     ('admin_api', '!'), ('admin_api', 'role:reader')]
+        bcells = [(cfg, op, caller) for cfg in base_cfgs for op in OPS
+                  for caller in ('no-roles', 'member', 'reader-other',
+                                 'admin', 'service')]
+        apps = {}
+        for i, ((rule, chk), (m, route, path, body, missing), caller) in \
+                enumerate(bcells):
+            if i % ctx.nworkers != ctx.idx:
+                continue
+            if (rule, chk) not in apps:
+                pf = os.path.join(tmpdir, 'policy-base-%d.yaml' % len(apps))
+                with open(pf, 'w') as f:
+                    f.write('"%s": "%s"\n' % (rule, chk))
+                apps[(rule, chk)] = svc.make_app(policy_file=pf)[0]
+            try:
+                check_cell(ctx, svc, apps[(rule, chk)], snap, before, inj, m,
+                           route, path, body, caller,
+                           'existing|%s=%s' % (rule, chk), 'base-override')
+            except Violation as v:
+                # one signature per (clause, configuration): the cells are
+                # in the detail
+                sig = {'clause': v.signature.get('clause'),
+                       'config': '%s: %s' % (rule, chk)}
+                record(Violation(sig, dict(v.detail or {},
+                                           cell_signature=v.signature)),
+                       {'kind': 'override', 'rule': rule, 'check': chk,
+                        'method': m, 'route': route})
     finally:
         svc.reset_policy()
     # --------------------------------------------------- keystone strategy
